@@ -923,6 +923,27 @@ def _b_reversed(interp, node, v):
     return list(reversed(list(interp.iterate(v, node))))
 
 
+def _b_getattr(interp, node, obj, name, *default):
+    if not isinstance(name, str):
+        raise Undecided("getattr with a non-constant name")
+    try:
+        return interp.getattr(obj, name, node)
+    except PyRaise as e:
+        if default and getattr(e.exc, "cls_name", "") == "AttributeError":
+            return default[0]
+        raise
+
+
+def _b_hasattr(interp, node, obj, name):
+    try:
+        interp.getattr(obj, name, node)
+        return True
+    except PyRaise as e:
+        if getattr(e.exc, "cls_name", "") == "AttributeError":
+            return False
+        raise
+
+
 def _b_any(interp, node, v):
     return any(interp.truth(x) for x in interp.iterate(v, node))
 
@@ -940,7 +961,7 @@ def _b_type(interp, node, v):
 
 
 for _f in (_b_len, _b_str, _b_float, _b_int, _b_bool, _b_list, _b_tuple, _b_set, _b_enumerate, _b_zip, _b_isinstance,
-           _b_sorted, _b_reversed, _b_any, _b_all, _b_print, _b_type):
+           _b_sorted, _b_reversed, _b_getattr, _b_hasattr, _b_any, _b_all, _b_print, _b_type):
     _f._wants_interp = True
     _f._accepts_symbolic = True
 
@@ -949,7 +970,7 @@ PY_BUILTINS = {
     "int": Builtin(_b_int, "int"), "bool": Builtin(_b_bool, "bool"), "list": Builtin(_b_list, "list"),
     "tuple": Builtin(_b_tuple, "tuple"), "set": Builtin(_b_set, "set"), "enumerate": Builtin(_b_enumerate, "enumerate"),
     "zip": Builtin(_b_zip, "zip"), "isinstance": Builtin(_b_isinstance, "isinstance"), "sorted": Builtin(_b_sorted, "sorted"),
-    "any": Builtin(_b_any, "any"), "reversed": Builtin(_b_reversed, "reversed"), "all": Builtin(_b_all, "all"), "print": Builtin(_b_print, "print"),
+    "any": Builtin(_b_any, "any"), "getattr": Builtin(_b_getattr, "getattr"), "hasattr": Builtin(_b_hasattr, "hasattr"), "reversed": Builtin(_b_reversed, "reversed"), "all": Builtin(_b_all, "all"), "print": Builtin(_b_print, "print"),
     "type": Builtin(_b_type, "type"), "range": Builtin(range, "range"), "min": Builtin(min, "min"), "max": Builtin(max, "max"),
     "abs": Builtin(abs, "abs"), "sum": Builtin(sum, "sum"), "dict": Builtin(dict, "dict"), "repr": Builtin(repr, "repr"),
     "True": True, "False": False, "None": None,
